@@ -167,6 +167,10 @@ fn main() {
             probe::annot_probe::<simdata::SimpleW>(n);
             0
         }
+        "c06-matrix" => {
+            c06::dev_matrix();
+            0
+        }
         "demo" => {
             probe::demo_both(&args[2]);
             0
